@@ -153,6 +153,10 @@ pub struct ScriptBus {
     pub stop_at_divergence: bool,
     /// which kind of error object a bus error is (see doubles::bus_error)
     pub error_flavour: u8,
+    /// a bus that does work of its own while it handles a message — it drives ANOTHER sign, through another controller
+    /// object on another bus, on the caller's thread (a relay, a gateway, a simulator that mirrors to real hardware)
+    pub relay: Option<Box<dyn FnMut(usize)>>,
+    pub relayed: usize,
 }
 
 impl ScriptBus {
@@ -171,6 +175,8 @@ impl ScriptBus {
             divergence: None,
             stop_at_divergence: false,
             error_flavour: 0,
+            relay: None,
+            relayed: 0,
         }
     }
 }
@@ -179,6 +185,10 @@ impl SignBus for ScriptBus {
     fn process_message<'a>(&mut self, message: Message<'_>) -> Result<Option<Message<'a>>, Box<dyn std::error::Error + Send + Sync>> {
         let got = refs::to_ref(&message);
         let depth = self.log.len();
+        if let Some(r) = &mut self.relay {
+            r(depth);
+            self.relayed += 1;
+        }
         if self.model.is_some() && self.divergence.is_none() {
             match &self.expect {
                 Some(Step::Emit(e)) if *e == got => {}
@@ -277,6 +287,23 @@ impl Session {
         let _ = catch(std::panic::AssertUnwindSafe(move || drop(sign)));
         let b = bus.borrow();
         b.log.iter().map(|(m, _)| m.clone()).collect()
+    }
+
+    /// From now on the scripted bus drives another sign of its own (configure, two pages, a page flip, in turn — one
+    /// whole controller call per message it handles) while it handles each message of this session's controller.
+    pub fn with_relay(self) -> Session {
+        use flipdot_testing::{VirtualSign, VirtualSignBus};
+        let inner_bus = Rc::new(RefCell::new(VirtualSignBus::new(vec![VirtualSign::new(Address(0x0055), flipdot::PageFlipStyle::Manual)])));
+        let inner = Sign::new(inner_bus, Address(0x0055), TYPES[5].ty);
+        let page = inner.create_page(flipdot::PageId(1));
+        self.bus.borrow_mut().relay = Some(Box::new(move |k| {
+            match k % 3 {
+                0 => drop(inner.configure()),
+                1 => drop(inner.send_pages(&[page.clone(), page.clone()])),
+                _ => drop(inner.show_loaded_page()),
+            };
+        }));
+        self
     }
 
     pub fn with_error_flavour(self, flavour: u8) -> Session {
